@@ -216,6 +216,10 @@ def run(ctx):
 
     # every holder of a key of one family chunks with the same key: a shared key copies the private section unchanged
     r5_key_material(_RL(ctx, 'C11.R3'))
+    # the chunker is built from this repository's config on every unlock (the per-user cache holds snapshot objects only)
+    from .c18 import r3b_cache_holds_snapshot_objects_only
+
+    r3b_cache_holds_snapshot_objects_only(_RL(ctx, 'C11.R3'))
     c10.r4_prefix(_Relabel(ctx, 'C11.R1'))
 
 
